@@ -31,8 +31,13 @@ META = {
     'level_note': 'Raft itself and NATS delivery are trusted.  Quick design check: one server, 4 operations, 1 blockade, '
                   '1 spontaneous publish failure, 1 record failure, 1 restart (eager schedule) and two servers, 3 operations, '
                   '2 take-overs (all schedules), one server with 3 operations, 1 snapshot, 1 restart, 1 foreign operation; thorough adds '
-                  'deeper bounds.  Log compaction below the replicated lastPublished (snapshot with fewer trailing logs than '
-                  'the backlog) is modelled (DoDispatchPanic) but excluded from the exhaustive configs and never executed.  '
+                  'deeper bounds.  Log compaction: the first retained index of the real Raft log store is recorded and '
+                  'C18_Obtainable (every committed operation that is not in the stream is still in the log store the dispatcher '
+                  'reads) is judged on every recorded state; snapshots compact as the server configured its Raft node, behaviours '
+                  'run with clustering.raft.snapshot.threshold unset and set below / above the backlog; a panic of the dispatcher '
+                  'goroutine is an observation (DispatcherPanic line).  In the model TrailingLogs = 10240 (nothing is compacted '
+                  'within the bounds; a backlog of more than 10240 entries is not explored), the variant Keeps = {1} generates '
+                  'the directed scenarios.  '
                   'Liveness is decided on the model only; on the real server a scenario that does not reach its target '
                   'state in time is inconclusive.  "Commit order with redelivery" is read as: first occurrences in commit '
                   'order, nothing skipped, and a redelivery only of events above the replicated lastPublished.',
@@ -102,14 +107,18 @@ def decorate(beh, rng, bid, nodes=('a',), foreign=True):
     meta = Meta(rng)
     steps = []
     fails_in_row = 0
+    depth = None
     for st in beh[1:]:
         a = dict(st['last'])
         name = a['a']
         if name in DROP:
             continue
+        if name == 'Snapshot':
+            depth = a.get('depth', 0)
+            a.pop('keep', None)     # the log is compacted as the server configured its Raft node
         if name == 'ForeignOp' and not foreign:
             continue          # a stuttering step of the specification: leaving it out is sound
-        for k in ('snapd', 'pafter', 'lpgap', 'pend'):      # selection features, not arguments
+        for k in ('snapd', 'pafter', 'lpgap', 'pend', 'depth'):      # selection features, not arguments
             a.pop(k, None)
         if name == 'PublishFail':
             fails_in_row += 1
@@ -132,7 +141,24 @@ def decorate(beh, rng, bid, nodes=('a',), foreign=True):
     cfg = {'nodes': list(nodes)}
     if any(s['a'] == 'ForeignOp' for s in steps):
         cfg['foreign'] = foreign_cfg(rng)
+    if depth is not None:
+        th = snap_threshold(rng, depth)
+        if th:
+            cfg['snapthreshold'] = th
     return {'id': bid, 'cfg': cfg, 'steps': steps}
+
+
+def snap_threshold(rng, depth):
+    """configuration dimension `clustering.raft.snapshot.threshold` of a behaviour with a snapshot.
+    depth = entries from the oldest unpublished operation to the end of the log when the snapshot is
+    taken (TLC's annotation): a value below it is the configuration under which a Raft node that kept
+    only `threshold` trailing logs would lose that operation.  0 = option not set."""
+    r = rng.random()
+    if depth >= 2 and r < 0.7:
+        return rng.randint(1, depth - 1)
+    if r < 0.85:
+        return 0
+    return rng.choice([1, 2, max(depth, 1), depth + 3])
 
 
 def foreign_cfg(rng):
@@ -154,6 +180,7 @@ def situations(beh):
         if n == 'Snapshot':
             snap = a
             f.add('snap:backlog' if a['pend'] > 0 else 'snap:clean')
+            f.add('snap:depth%d' % min(a.get('depth', 0), 4))     # how far back the oldest unpublished operation lies
             if a['lpgap'] > a['pend']:
                 f.add('snap:unrecorded')        # published, record still missing
         elif n == 'Start' and a['snapd']:
@@ -229,7 +256,7 @@ def snapshot_scenarios(rng, first_id, n):
             op = {'a': 'CommitOp', 'k': 'E'}
             op.update(meta.pick())
             steps += [op, {'a': 'DispatchPublish', 'n': 'a'}, {'a': 'RecordPublished', 'n': 'a'}]
-        backlog = [0, 1, 2][i % 3] if n >= 3 else rng.randint(0, 2)
+        backlog = [0, 2, 3, 1, 4, 2][i % 6] if n >= 3 else rng.randint(0, 3)
         foreign = i % 4 == 3
         todo = 0
         if backlog:
@@ -243,7 +270,7 @@ def snapshot_scenarios(rng, first_id, n):
             todo = backlog
         if foreign:
             steps.append({'a': 'ForeignOp'})
-        steps.append({'a': 'Snapshot', 'n': 'a', 'keep': 100})
+        steps.append({'a': 'Snapshot', 'n': 'a'})
         op = {'a': 'CommitOp', 'k': 'E'}
         op.update(meta.pick())
         todo += 1
@@ -271,19 +298,59 @@ def snapshot_scenarios(rng, first_id, n):
         cfg = {'nodes': ['a']}
         if foreign:
             cfg['foreign'] = foreign_cfg(rng)
+        # configuration: snapshot threshold below the backlog (every backlog operation is one log entry
+        # and the oldest lies `backlog` entries from the end) / not set
+        if backlog >= 2:
+            cfg['snapthreshold'] = rng.randint(1, backlog - 1)
+        elif i % 2:
+            cfg['snapthreshold'] = rng.choice([1, 2, 8])
         out.append({'id': first_id + i, 'cfg': cfg, 'steps': steps})
     return out
 
 
 def variant_scenarios(rng, first_id):
-    """Defective variant of ONE decision of the specification as a generator of directed scenarios:
-    with SnapCarriesLP = FALSE (the snapshot does not carry lastPublished - the code before its repair)
+    """Defective variants of ONE decision of the specification as generators of directed scenarios:
+    - SnapCarriesLP = FALSE (the snapshot does not carry lastPublished - the code before its repair),
+    - Keeps = {1} (the Raft node keeps 1 trailing log instead of 10240: compaction reaches the backlog of
+      unpublished operations) - replayed with the snapshot threshold set to that value and continued
+      through the end of the blockade, a restart and a step-down, where a dispatcher whose entries are
+      gone dies.
     TLC's counterexample is a shortest behaviour in which exactly that decision matters.  It is replayed
     on the real code like any other behaviour (and must hold there)."""
+    out = variant_scenario(rng, first_id, 'MC_Activity_snap_before.cfg', 'SnapCarriesLP=FALSE')
+    for tail in ('record', 'restart'):
+        b = variant_scenario(rng, first_id + len(out), 'MC_Activity_trail.cfg', 'Keeps={1}', extend=False)[0]
+        b['cfg']['snapthreshold'] = 1
+        st = b['steps']
+        acts = [x['a'] for x in st]
+        events = 1 + acts.count('CommitOp')              # the creation of __activity + the operations
+        recorded = acts.count('RecordPublished')
+        parked = acts.count('DispatchPublish') > recorded
+        blocked = acts.count('Block') > acts.count('Unblock')
+        more = []
+        if tail == 'restart':
+            # (a record that is pending is lost with the stop; the restarted controller resumes behind
+            #  the replicated lastPublished and reads every entry above it from the log store)
+            more = [{'a': 'Crash', 'n': 'a'}, {'a': 'Start', 'n': 'a'}, {'a': 'Elect', 'n': 'a'}, {'a': 'BecomeLeader', 'n': 'a'}]
+        else:
+            if blocked:
+                more.append({'a': 'Unblock'})
+            if parked:
+                more.append({'a': 'RecordPublished', 'n': 'a'})
+                recorded += 1
+        for _ in range(max(0, events - recorded)):
+            more += [{'a': 'DispatchPublish', 'n': 'a'}, {'a': 'RecordPublished', 'n': 'a'}]
+        b['steps'] = st + more
+        b['variant'] += ',' + tail
+        out.append(b)
+    return out
+
+
+def variant_scenario(rng, first_id, cfgname, what, extend=True):
     import re
     with core.scratch('cex') as d:
         core._stage_specs(d)
-        cmd = ['tlc', '-workers', '4', '-metadir', os.path.join(d, 'meta'), '-config', 'MC_Activity_snap_before.cfg',
+        cmd = ['tlc', '-workers', '4', '-metadir', os.path.join(d, 'meta'), '-config', cfgname,
                '-noGenerateSpecTE', 'MC_Activity.tla']
         rc, out, wall = core._run_tlc(cmd, d, core._tlc_env(d), 600)
     if rc is None or 'is violated' not in out:
@@ -292,10 +359,12 @@ def variant_scenarios(rng, first_id):
     for m in re.finditer(r'^State \d+: <(.*?)>\n(.*?)(?=^State \d+:|\Z|^\d+ states generated)', out, re.S | re.M):
         steps.append({'label': m.group(1), 'last': core.tlaval.state_var(m.group(2), 'last'), 'body': m.group(2)})
     b = decorate(steps, rng, first_id)
+    b['cfg'].pop('snapthreshold', None)
     # the counterexample ends where the variant goes wrong; let the real controller go on from there
-    b['steps'] += [{'a': 'CommitOp', 'k': 'E', 'op': 'create', 'name': 'v%d' % first_id, 'parts': 1},
-                   {'a': 'DispatchPublish', 'n': 'a'}, {'a': 'RecordPublished', 'n': 'a'}]
-    b['variant'] = 'SnapCarriesLP=FALSE'
+    if extend:
+        b['steps'] += [{'a': 'CommitOp', 'k': 'E', 'op': 'create', 'name': 'v%d' % first_id, 'parts': 1},
+                       {'a': 'DispatchPublish', 'n': 'a'}, {'a': 'RecordPublished', 'n': 'a'}]
+    b['variant'] = what
     return [b]
 
 
@@ -316,6 +385,33 @@ def features(beh):
 def nontrivial(beh):
     acts = {s['a'] for s in beh['steps']}
     return 'CommitOp' in acts and bool(acts & {'PublishFail', 'Crash', 'TakeOver', 'Snapshot', 'StepDown', 'ForeignOp'})
+
+
+def panic_observation(tid, got, behaviours, text):
+    """The test process died while behaviour `tid` was running.  If the process's panic report shows that
+    the goroutine that panicked runs the DISPATCHER function of the server (name learned by the driver at the
+    publish gate, recorded on every line) and no harness frame, and the step in progress was not a stop of
+    the server (shutdown races are not C18's), the death is an observation: a `DispatcherPanic` line with
+    the state recorded last, judged by TLC.  Anything else stays a dead harness process (abandoned)."""
+    import re
+    mine = [e for e in got if e.get('t') == tid and 'st' in e]
+    if not mine:
+        return None
+    fn = mine[-1]['st'].get('dispfn') or ''
+    m = re.search(r'^panic: (.*)$', text or '', re.M)
+    if not fn or not m:
+        return None
+    rest = text[m.end():]
+    g = re.search(r'^goroutine \d+ \[running\]:\n(.*?)(?:\n\n|\Z)', rest, re.S | re.M)
+    if not g or '_verif_test.go' in g.group(1) or (fn + '(') not in g.group(1):
+        return None
+    b = next((x for x in behaviours if x['id'] == tid), None)
+    done = len([e for e in mine if e['a'] not in ('Open',)])
+    during = b['steps'][done]['a'] if b and done < len(b['steps']) else 'end'
+    if during == 'Crash':
+        return None
+    return {'t': tid, 'a': 'DispatcherPanic', 'args': {'n': 'a', 'during': during, 'msg': m.group(1)[:200]},
+            'st': mine[-1]['st'], 'obs': {'err': 'panic: ' + m.group(1)[:200]}}
 
 
 def run_shard(behaviours, d, k, out, timeout):
@@ -349,6 +445,10 @@ def run_shard(behaviours, d, k, out, timeout):
         started = [e['t'] for e in got if e['a'] == 'Open']
         dead = [t for t in started if t not in done]
         crashed += dead
+        for t in dead:
+            ev = panic_observation(t, got, todo, text)
+            if ev:
+                lines.append(ev)
         seen = set(started)
         todo = [b for b in todo if b['id'] not in seen]
     out[k] = (lines, crashed, todo, failtext or text)
@@ -376,8 +476,10 @@ def execute(behaviours, d, shards=6, timeout=900):
             raise core.Inconclusive('harness failed: %s' % (text or '')[-3000:])
         for b in todo:
             abandoned[b['id']] = 'not executed: harness process died repeatedly: ' + (text or '')[-300:]
+        judged = {e['t'] for e in got if e['a'] == 'DispatcherPanic'}
         for t in crashed:
-            abandoned[t] = 'harness process died: ' + (text or '')[:600]
+            if t not in judged:
+                abandoned[t] = 'harness process died: ' + (text or '')[:600]
         for e in got:
             if e['a'] == 'Abandoned':
                 abandoned[e['t']] = e.get('why', '')
@@ -499,7 +601,12 @@ def run(rep, tier, seed, replay):
         trace, abandoned, nlines = execute(behaviours, d, shards=6 if tier == 'quick' else 8,
                                            timeout=900 if tier == 'quick' else 2400)
         tr = judge(rep, behaviours, trace)
-        conf = conformance(rep, behaviours, trace)
+        try:
+            conf = conformance(rep, behaviours, trace)
+        except core.Inconclusive:
+            if not rep.violations:      # (drift is never a verdict: a verdict already taken stands)
+                raise
+            conf = None
         quiet_drift(rep, trace)
     rep.cov['traces_validated_against_impl'] = len(behaviours) - len(abandoned)
     rep.cov['trace_lines_validated'] = tr['validated']
